@@ -45,7 +45,8 @@ def safe_flush(handle):
     status = True
     try:
         handle.flush()
-    except OSError:
+    except (OSError, ValueError):
+        # ValueError: the handle was closed, e.g. by the alias itself
         status = False
     return status
 
@@ -530,11 +531,12 @@ class ProcProxyThread(threading.Thread):
         safe_flush(sp_stderr)
         try:
             returncode = parse_proxy_return(r, sp_stdout, sp_stderr)
-        except OSError:
+        except (OSError, ValueError):
             # Writing the returned value failed, e.g. the next process in the
-            # pipeline has exited already.  Same policy as for an OSError
-            # raised by the function itself; without this the thread would
-            # die here with returncode None and the pipeline never ends.
+            # pipeline has exited already or the alias closed its stdout.
+            # Same policy as for an OSError raised by the function itself;
+            # without this the thread would die here with returncode None
+            # and the pipeline never ends.
             status = still_writable(self.c2pwrite) and still_writable(self.errwrite)
             returncode = 1 if status else 0
         self.returncode = returncode
